@@ -43,6 +43,21 @@ class Sw(enum.Enum):      # member names that YAML takes for booleans / null
 
 
 ENUMS = {"Color": Color, "Sw": Sw}
+DATACLASSES = {}      # name -> dataclass, built per request from the harness's field table (payload["dataclasses"])
+
+
+def build_dataclasses(table):
+    import dataclasses
+
+    for name, fields in table:      # in dependency order
+        fl = []
+        for fname, ftype, fdef in fields:
+            d = dec(fdef)
+            if isinstance(d, (list, dict, set)):
+                fl.append((fname, ty(ftype), dataclasses.field(default_factory=(lambda d=d: json.loads(json.dumps(d))))))
+            else:
+                fl.append((fname, ty(ftype), dataclasses.field(default=d)))
+        DATACLASSES[name] = dataclasses.make_dataclass(name, fl)
 
 
 # ---- tagged JSON <-> Python values ------------------------------------------------------------------------------
@@ -83,7 +98,12 @@ def enc(v):
     if isinstance(v, tuple):
         return {"$t": [enc(x) for x in v]}
     if isinstance(v, (set, frozenset)):
-        return {"$s": [enc(x) for x in v]}      # iteration order of this very object = the order list(v) serialises in
+        items = list(v)                         # iteration order of this very object ...
+        try:                                    # ... put in the order a set is serialised in (since /repo 42b663b)
+            items = sorted(items, key=lambda x: (type(x).__name__, x))
+        except TypeError:
+            pass
+        return {"$s": [enc(x) for x in items]}
     if isinstance(v, Namespace):
         v = v.as_dict()
     if isinstance(v, dict):
@@ -115,6 +135,8 @@ def ty(t):
         return Literal[tuple(t[1])]
     if k == "enum":
         return ENUMS[t[1]]
+    if k == "dc":
+        return DATACLASSES[t[1]]
     raise ValueError("unknown type %r" % (t,))
 
 
@@ -136,6 +158,8 @@ def untype(tp):
         return "none"
     if isinstance(tp, type) and issubclass(tp, enum.Enum):
         return ["enum", tp.__name__]
+    if isinstance(tp, type) and DATACLASSES.get(tp.__name__) is tp:
+        return ["dc", tp.__name__]
     origin = typing.get_origin(tp)
     args = typing.get_args(tp)
     if origin is Union:
@@ -194,14 +218,16 @@ def flatten_along(decl, data, prefix=""):
     return flat, extra
 
 
-def flat_cfg(cfg):
-    cfg = strip_meta(cfg)
-    out = []
-    for k, v in cfg.items():
-        if k == "cfg" or k.startswith("cfg."):
-            continue
-        out.append([k, enc(v)])
-    return sorted(out, key=lambda kv: kv[0])
+def flat_cfg(cfg, decl):
+    """the configuration leaf by declared leaf (a dataclass-typed value is a Namespace INSIDE a leaf, not a group)"""
+    flat, extra = flatten_along(decl, ns_dict(strip_meta(cfg)))
+    extra = [k for k in extra if k != "cfg"]
+    return sorted(flat, key=lambda kv: kv[0]) + [["<unexpected>." + k, None] for k in extra]
+
+
+def ns_dict(ns):
+    """one level at a time: groups become dicts, leaf values (also Namespaces of dataclass-typed values) stay"""
+    return {k: (ns_dict(v) if isinstance(v, Namespace) else v) for k, v in vars(ns).items()}
 
 
 def err_kind(e):
@@ -261,7 +287,7 @@ def run_case(case, scratch):
         return {"status": "rejected", "msg": str(e)[:200]}
     except Exception as e:
         return {"status": "crash0:" + err_kind(e), "msg": str(e)[:200]}
-    out["cfg0"] = flat_cfg(cfg0)
+    out["cfg0"] = flat_cfg(cfg0, decl)
     dflt = parser.get_defaults()        # what a missing key is given, and what skip_default compares with
     out["defs"] = [[key, enc(dflt[key])] for key, _ in leaves(decl)]
     out["types"] = [[key, untype(ty(node["ty"]))] for key, node in leaves(decl)]
@@ -324,7 +350,7 @@ def run_case(case, scratch):
             cfg1 = parser.parse_path(path)
         else:
             cfg1 = parser.parse_args(["--cfg", path])
-        out["cfg1"] = flat_cfg(cfg1)
+        out["cfg1"] = flat_cfg(cfg1, decl)
     except (jsonargparse.ArgumentError, SystemExit) as e:
         out["cfg1"] = {"$err": "rejected", "msg": str(e)[:200]}
     except Exception as e:
@@ -364,6 +390,7 @@ def run_case(case, scratch):
 
 def main():
     req = json.load(sys.stdin)
+    build_dataclasses(req.get("dataclasses", []))
     scratch = tempfile.mkdtemp(prefix="jv_c01_")
     res = []
     try:
